@@ -68,11 +68,6 @@ pub open spec fn best_outer(d: DfaCore, cls: Cls, text: Seq<char>, base: nat, k:
     }
 }
 
-/// closure is a total function
-pub open spec fn cls_of<F: Fn(CharClassID, char) -> bool>(f: &F) -> Cls {
-    |cc: CharClassID, c: char| call_ensures(f, (cc, c), true)
-}
-
 /// relation between the haystack and an iterator positioned at char n of it
 pub open spec fn ci_at(rem: Seq<(usize, char)>, input: Seq<char>, n: int) -> bool {
     0 <= n <= input.len() && rem == ci_seq(input.skip(n), blen(input.take(n)))
